@@ -6,8 +6,11 @@
 From Coq Require Import NArith.
 From BV Require Import lib.Ints model.CryptoBase model.CryptoMD model.CryptoSHA256 model.CryptoSHA1
   model.CryptoSHA512 model.CryptoRIPEMD160 model.CryptoHMAC model.CryptoHMACInst
+  model.CryptoChaCha model.CryptoPoly1305 model.CryptoAEAD model.CryptoSipHash model.CryptoSHA3
   proofs.CryptoBaseLemmas proofs.CryptoMDLemmas proofs.CryptoSHA256Lemmas proofs.CryptoHashesLemmas
-  proofs.CryptoHMACLemmas proofs.CryptoHMACInstLemmas.
+  proofs.CryptoHMACLemmas proofs.CryptoHMACInstLemmas
+  proofs.CryptoChaChaLemmas proofs.CryptoPoly1305Lemmas proofs.CryptoAEADLemmas
+  proofs.CryptoSipHashLemmas proofs.CryptoSHA3Lemmas.
 Local Open Scope Z_scope.
 
 (* ---------- streaming hashers: any fragmentation = one shot ---------- *)
@@ -90,6 +93,157 @@ Theorem C49_hkdf_sha256_l32_is_rfc5869 : forall ubuf ikm salt info,
   chkdf_sha256_l32 ubuf ikm salt info = hkdf_spec sha256_spec 64 32 salt ikm info 32.
 Proof. exact chkdf_sha256_l32_eq_spec. Qed.
 Print Assumptions C49_hkdf_sha256_l32_is_rfc5869.
+
+(* ---------- ChaCha20 (RFC 8439 2.1-2.4) ---------- *)
+(* The buffered object ChaCha20: starting with an empty leftover buffer (after construction, SetKey or
+   Seek), the outputs of ANY sequence of Crypt(data) / Keystream(n) calls, concatenated, equal the inputs
+   (zeros for Keystream) XORed with the block stream of ChaCha20Aligned from the same state; K is any
+   number of blocks that covers the total length.  No premise on the block counter: the C++ overflow rule
+   (`++j12; if (!j12) ++j13;`) is part of the model's block stream. *)
+Theorem C49_chacha20_any_call_sequence : forall c ops K,
+  input_ok (cc_input c) -> length (cc_buffer c) = 64%nat -> cc_bufleft c = 0%nat ->
+  (ops_total ops <= 64 * K)%nat ->
+  concat (fst (cc_run_ops c ops)) =
+  xor_bytes (concat (map op_data ops)) (fst (aligned_keystream K (cc_input c))).
+Proof. exact chacha20_ops_stream. Qed.
+Print Assumptions C49_chacha20_any_call_sequence.
+
+Theorem C49_chacha20_crypt_chunking_independent : forall c chunks,
+  input_ok (cc_input c) -> length (cc_buffer c) = 64%nat -> cc_bufleft c = 0%nat ->
+  concat (fst (chacha20_crypt_seq c chunks)) = fst (chacha20_crypt c (concat chunks)).
+Proof. exact chacha20_crypt_chunking. Qed.
+Print Assumptions C49_chacha20_crypt_chunking_independent.
+
+Theorem C49_chacha20_crypt_involution : forall c msg,
+  input_ok (cc_input c) -> length (cc_buffer c) = 64%nat -> cc_bufleft c = 0%nat ->
+  fst (chacha20_crypt c (fst (chacha20_crypt c msg))) = msg.
+Proof. exact chacha20_crypt_involution. Qed.
+Print Assumptions C49_chacha20_crypt_involution.
+
+(* ChaCha20(key); Seek({nf, ns}, ctr); Crypt(c1); ...; Crypt(cn) is RFC 8439's chacha20_encrypt with the
+   nonce LE32(nf) || LE64(ns), as long as the 32-bit block counter does not wrap *)
+Theorem C49_chacha20_is_rfc8439 : forall ubuf key nf ns ctr chunks,
+  length ubuf = 64%nat -> length (le32_words key) = 8%nat ->
+  0 <= nf < 2 ^ 32 -> 0 <= ns < 2 ^ 64 -> 0 <= ctr ->
+  ctr + Z.of_nat (blocks_needed (length (concat chunks))) <= 2 ^ 32 ->
+  concat (fst (chacha20_crypt_seq (chacha20_seek (chacha20_new ubuf key) nf ns ctr) chunks)) =
+  chacha20_encrypt key ctr (rfc_nonce nf ns) (concat chunks).
+Proof. exact chacha20_object_is_rfc8439. Qed.
+Print Assumptions C49_chacha20_is_rfc8439.
+
+(* ---------- Poly1305 (RFC 8439 2.5) ---------- *)
+(* incremental Update with any fragmentation (partial-block buffer, final block with the 0x01 marker) = one shot;
+   no length bound; any initial contents of the context's buffer *)
+Theorem C49_poly1305_incremental_is_rfc8439 : forall ubuf key chunks,
+  length ubuf = 16%nat ->
+  poly1305_stream ubuf key chunks = poly1305_spec key (concat chunks).
+Proof. exact poly1305_stream_eq_spec. Qed.
+Print Assumptions C49_poly1305_incremental_is_rfc8439.
+
+(* ---------- AEAD_CHACHA20_POLY1305 (RFC 8439 2.8) ---------- *)
+(* `key_loaded c key`: the ChaCha20 member holds `key` (whatever was done with the object before) *)
+Theorem C49_aead_encrypt_is_rfc8439 : forall pbuf c key plain1 plain2 aad nf ns,
+  key_loaded c key -> length pbuf = 16%nat ->
+  0 <= nf < 2 ^ 32 -> 0 <= ns < 2 ^ 64 ->
+  1 + Z.of_nat (blocks_needed (length (plain1 ++ plain2))) <= 2 ^ 32 ->
+  Z.of_nat (length aad) < 2 ^ 64 ->
+  fst (aead_encrypt pbuf c plain1 plain2 aad nf ns) = aead_encrypt_spec key (rfc_nonce nf ns) aad (plain1 ++ plain2) /\
+  key_loaded (snd (aead_encrypt pbuf c plain1 plain2 aad nf ns)) key.
+Proof. exact aead_encrypt_is_rfc8439. Qed.
+Print Assumptions C49_aead_encrypt_is_rfc8439.
+
+(* Decrypt accepts exactly when the 16 trailing bytes equal the Poly1305 tag of (aad, ciphertext) under the
+   one-time key (all 16 bytes are compared), and then returns the decryption split at len1 *)
+Theorem C49_aead_decrypt_accepts_iff_tag : forall pbuf c key cipher aad nf ns len1,
+  key_loaded c key -> length pbuf = 16%nat ->
+  0 <= nf < 2 ^ 32 -> 0 <= ns < 2 ^ 64 ->
+  (16 <= length cipher)%nat -> (len1 <= length cipher - 16)%nat ->
+  1 + Z.of_nat (blocks_needed (length cipher - 16)) <= 2 ^ 32 ->
+  Z.of_nat (length aad) < 2 ^ 64 ->
+  let ct := firstn (length cipher - 16) cipher in
+  let tag := skipn (length cipher - 16) cipher in
+  let pt := chacha20_encrypt key 1 (rfc_nonce nf ns) ct in
+  (tag = aead_tag_spec key (rfc_nonce nf ns) aad ct ->
+     fst (aead_decrypt pbuf c cipher aad nf ns len1) = Some (firstn len1 pt, skipn len1 pt)) /\
+  (tag <> aead_tag_spec key (rfc_nonce nf ns) aad ct ->
+     fst (aead_decrypt pbuf c cipher aad nf ns len1) = None) /\
+  key_loaded (snd (aead_decrypt pbuf c cipher aad nf ns len1)) key.
+Proof. exact aead_decrypt_characterised. Qed.
+Print Assumptions C49_aead_decrypt_accepts_iff_tag.
+
+Theorem C49_aead_roundtrip : forall pbuf pbuf' c c' key plain1 plain2 aad nf ns,
+  key_loaded c key -> key_loaded c' key -> length pbuf = 16%nat -> length pbuf' = 16%nat ->
+  0 <= nf < 2 ^ 32 -> 0 <= ns < 2 ^ 64 ->
+  1 + Z.of_nat (blocks_needed (length (plain1 ++ plain2))) <= 2 ^ 32 ->
+  Z.of_nat (length aad) < 2 ^ 64 ->
+  fst (aead_decrypt pbuf' c' (fst (aead_encrypt pbuf c plain1 plain2 aad nf ns)) aad nf ns (length plain1))
+  = Some (plain1, plain2).
+Proof. exact aead_roundtrip. Qed.
+Print Assumptions C49_aead_roundtrip.
+
+(* "rejects any modified ciphertext, tag or associated data", precisely: whatever (aad, ciphertext, tag) is
+   presented, acceptance implies that the presented tag is the Poly1305 tag of the presented (aad, ciphertext)
+   under the one-time key of (key, nonce) — a modification is accepted only with a valid tag for the modified
+   transcript (a Poly1305 forgery) ... *)
+Theorem C49_aead_accept_implies_valid_tag : forall pbuf c key cipher aad nf ns len1 res,
+  key_loaded c key -> length pbuf = 16%nat ->
+  0 <= nf < 2 ^ 32 -> 0 <= ns < 2 ^ 64 ->
+  (16 <= length cipher)%nat -> (len1 <= length cipher - 16)%nat ->
+  1 + Z.of_nat (blocks_needed (length cipher - 16)) <= 2 ^ 32 ->
+  Z.of_nat (length aad) < 2 ^ 64 ->
+  fst (aead_decrypt pbuf c cipher aad nf ns len1) = Some res ->
+  skipn (length cipher - 16) cipher =
+  aead_tag_spec key (rfc_nonce nf ns) aad (firstn (length cipher - 16) cipher).
+Proof. exact aead_accept_implies_tag. Qed.
+Print Assumptions C49_aead_accept_implies_valid_tag.
+
+(* ... and a modification of the tag alone (any of its 16 bytes) is always rejected *)
+Theorem C49_aead_modified_tag_rejected : forall pbuf pbuf' c c' key plain1 plain2 aad nf ns tag' len1,
+  key_loaded c key -> key_loaded c' key -> length pbuf = 16%nat -> length pbuf' = 16%nat ->
+  0 <= nf < 2 ^ 32 -> 0 <= ns < 2 ^ 64 ->
+  1 + Z.of_nat (blocks_needed (length (plain1 ++ plain2))) <= 2 ^ 32 ->
+  Z.of_nat (length aad) < 2 ^ 64 ->
+  let out := fst (aead_encrypt pbuf c plain1 plain2 aad nf ns) in
+  let ct := firstn (length out - 16) out in
+  length tag' = 16%nat -> tag' <> skipn (length out - 16) out -> (len1 <= length ct)%nat ->
+  fst (aead_decrypt pbuf' c' (ct ++ tag') aad nf ns len1) = None.
+Proof. exact aead_modified_tag_rejected. Qed.
+Print Assumptions C49_aead_modified_tag_rejected.
+
+(* ---------- SipHash-2-4 (Aumasson, Bernstein) ---------- *)
+(* CSipHasher(k0,k1).Write(span)...Finalize(): every fragmentation, EVERY total length (the uint8_t byte
+   counter wraps exactly like the "length mod 256" byte of the specification) *)
+Theorem C49_siphash_stream_any_chunking : forall k0 k1 chunks,
+  bytes_ok (concat chunks) ->
+  csiphasher_finalize (fold_left csiphasher_write_bytes chunks (csiphasher_init k0 k1)) =
+  siphash24_spec k0 k1 (concat chunks).
+Proof. exact csiphasher_stream_eq_spec. Qed.
+Print Assumptions C49_siphash_stream_any_chunking.
+
+(* the uint256 fast paths are SipHash-2-4 of the 32 bytes (followed by the 4 LE bytes of `extra`) *)
+Theorem C49_siphash_uint256_fast_path : forall k0 k1 val,
+  length val = 32%nat -> presalted_siphash_u256 k0 k1 val = siphash24_spec k0 k1 val.
+Proof. exact presalted_siphash_u256_eq_spec. Qed.
+Print Assumptions C49_siphash_uint256_fast_path.
+
+Theorem C49_siphash_uint256_extra_fast_path : forall k0 k1 val extra,
+  length val = 32%nat -> 0 <= extra < 2 ^ 32 ->
+  presalted_siphash_u256_extra k0 k1 val extra = siphash24_spec k0 k1 (val ++ le_bytes 4 extra).
+Proof. exact presalted_siphash_u256_extra_eq_spec. Qed.
+Print Assumptions C49_siphash_uint256_extra_fast_path.
+
+(* ---------- SHA3-256 (FIPS 202) ---------- *)
+(* SHA3_256().Write(c1)...Write(cn).Finalize(): every fragmentation, every length, any initial m_buffer *)
+Theorem C49_sha3_256_stream_any_chunking : forall ubuf chunks,
+  length ubuf = 8%nat -> bytes_ok (concat chunks) ->
+  sha3_finalize (fold_left sha3_write chunks (sha3_init ubuf)) = sha3_256_spec (concat chunks).
+Proof. exact sha3_stream_eq_spec. Qed.
+Print Assumptions C49_sha3_256_stream_any_chunking.
+
+(* the unrolled C++ KeccakF (transcribed statement by statement) is Keccak-f[1600] of FIPS 202 on every state *)
+Theorem C49_keccakf_cpp_is_fips202 : forall st, length st = 25%nat -> keccakf_cpp st = keccak_f st.
+Proof. exact keccakf_cpp_eq. Qed.
+Print Assumptions C49_keccakf_cpp_is_fips202.
 
 Example C49_nonvacuous_sha256 :
   be_value (csha256_stream [[97%N]; []; [98; 99]%N]) = 0xba7816bf8f01cfea414140de5dae2223b00361a396177a9cb410ff61f20015ad.
